@@ -137,7 +137,7 @@ def _worker(job, chk):
         for k in keyspace.long_keys(as_str, vals, lengths, stride):
             judge(chk, k, prefix, uni, False)
     elif kind == "boundary":
-        for k in keyspace.boundary_keys(len(prefix)):
+        for k in keyspace.boundary_keys(len(prefix), prefix):
             if isinstance(k, str) == as_str:
                 judge(chk, k, prefix, uni, True)
     if kind == "class2" and uni and as_str and prefix == b"ns:":
